@@ -446,3 +446,9 @@ def run(ctx, rep):
     rep.clause("C01.7 manager methods hydrate before they write (no placeholder entry ahead of the real incumbent)")
     import c11
     c11.clause_hydrate_first(prog, rep)
+    # a fork is resolved by processing the better commit for the fork epoch, whose wrapper is encrypted with a *past* epoch's exporter
+    # secret: the outer-layer look-back has to reach as far back as the configured window (shared with C02)
+    rep.clause("C01.8 the outer-layer look-back window covers exactly the configured number of past epochs (a fork as deep as the window is still resolvable)")
+    import c02
+    _roots, _scope = c02.recv_scope(prog)
+    c02.clause_lookback(prog, rep, _scope)
